@@ -2,7 +2,7 @@
 import json
 from concurrent.futures import ProcessPoolExecutor
 
-from vlib import c09_build, c09_contracts as cc, c09_corr as cr, c09_halt, c09_handover, c09_tpl, configs, coqrun
+from vlib import c09_build, c09_contracts as cc, c09_corr as cr, c09_exits, c09_halt, c09_handover, c09_route, c09_tpl, configs, coqrun
 from vlib.common import COQ
 
 LEVEL = "proof"
@@ -21,7 +21,13 @@ META = {
             "of a function that calls out between an unlock store and the way out, no way out with the lock held) on a family "
             "of terminating statements whose operand expressions hand control over (selfdestruct / raw_revert / raise / "
             "assert-reason / return x extcall / staticcall / internal function that calls out, sends or creates), which is "
-            "also executed on pyrevm with a re-entering attacker. The model is validated against bytecode on pyrevm with a "
+            "also executed on pyrevm with a re-entering attacker. The same checker (no way out with the lock held) and the EVM are "
+            "run on the exit-shape family (and the routing of every legacy `return` statement to the function's exit sequence is "
+            "modelled in ExitRoute.v, proved to run the release for every context, and tied by observing the real make_return_stmt): "
+            " external and INTERNAL @nonreentrant functions x leave statement (bare return / value "
+            "return / fall-through / raise / assert) x position (top, if, one and two nested for loops over ranges and arrays, "
+            "after break / continue) x which iteration leaves, each followed by protected calls in the same and in later "
+            "transactions and by a second activation of the same internal function. The model is validated against bytecode on pyrevm with a "
             "scripted attacker: 14 entry kinds (incl. default-argument selectors, raw_call callbacks, library-module "
             "externals and @nonreentrant internals, constructor call-outs) x exit path x depth x re-entered kind, both "
             "protection styles, all configurations.",
@@ -34,7 +40,8 @@ META = {
 
 COQ_FILES = ["C09/Lock.v", "C09/LockProofs.v", "C09/LockTpl.v", "C09/ExitCheck.v", "C09/RichCfg.v",
              "C09/HaltCheck.v", "C09/HaltProofs.v", "C09/PropsHalt.v",
-             "C09/GenLock.v", "C09/TieLock.v", "C09/PropsLock.v", "C09/PropsExit.v"]
+             "C09/GenLock.v", "C09/TieLock.v", "C09/PropsLock.v", "C09/PropsExit.v",
+             "C09/ExitRoute.v", "C09/ExitRouteProofs.v", "C09/GenRoute.v", "C09/TieRoute.v", "C09/PropsRoute.v"]
 MAX_REPORTS = 3
 
 
@@ -50,6 +57,7 @@ def part_proofs(ctx):
         ctx.coq_build(COQ_FILES[:5])
         return {"kind": "translator-rejected", "name": f"lock template export failed: {type(e).__name__}: {e}", "detail": {"error": str(e)}}
     (COQ / "C09" / "GenLock.v").write_text(text)
+    route_error = gen_route(ctx)
     ctx.extra["family_size"] = fam
     ctx.extra["template_samples"] = [list(map(str, r)) for r in raw[:2]]
     if any(k != 0 for k in real_keys.values()):
@@ -60,14 +68,31 @@ def part_proofs(ctx):
     if b["ok"]:
         ctx.extra["syntactic_matches"] = fam
         return None
+    if route_error is not None and b["file"].endswith("TieRoute.v"):
+        return {"kind": "translator-rejected", "name": f"return-routing export failed: {route_error}", "detail": {"error": route_error}}
     return {"kind": "theorem-broken", "name": f"{b.get('failed_lemma')} in {b['file']}",
             "detail": {"theorem": b.get("failed_lemma"), "file": b["file"], "coq_output": b["out"][-1500:]}}
+
+
+def gen_route(ctx):
+    """regenerate GenRoute.v from the real make_return_stmt (O-tie of ExitRoute.v).  Returns an error text or None; on error
+    an empty observation is written, so that TieRoute.v fails (fail closed)"""
+    try:
+        text, n, samples = c09_route.observe()
+        err = None
+        ctx.extra["return_routes_observed"] = n
+        ctx.extra["return_route_samples"] = [list(map(str, x)) for x in samples]
+    except Exception as e:  # the generator raised / emitted something outside the exportable shape
+        text, err = c09_route.empty(), f"{type(e).__name__}: {e}"
+    (COQ / "C09" / "GenRoute.v").write_text(text)
+    return err
 
 
 def prebuild(ctx):
     """setup_cmd: generate + compile once so that the first quick run reuses the proofs"""
     text, _fam, _raw, _keys = c09_tpl.observe()
     (COQ / "C09" / "GenLock.v").write_text(text)
+    gen_route(ctx)
     ctx.coq_build_cached(COQ_FILES)
 
 
@@ -220,6 +245,15 @@ def run(ctx):
             if pending is not None and not found:
                 ctx.violation(pending["kind"], pending["name"], pending["detail"])
             return
+        elif "exit_shape" in d:
+            # record of the exit-shape family (c09_exits): re-run that family under the recorded configuration / style / seed
+            allc = {c.name: c for c in configs.configs("thorough") + configs.configs("quick")}
+            pending = part_proofs(ctx)
+            cs = [allc[d["config"]]] if d.get("config") in allc else configs.configs(ctx.tier)
+            found = c09_exits.part_exits(ctx, c09_exits.jobs_for(cs, int(d.get("seed", 0)), pragma=bool(d.get("pragma_style"))))
+            if pending is not None and not found:
+                ctx.violation(pending["kind"], pending["name"], pending["detail"])
+            return
     import time as _t
     pending = part_proofs(ctx)
     ctx.log(f"proofs + template tie at {_t.time() - ctx.t0:.0f}s")
@@ -228,6 +262,8 @@ def run(ctx):
         cfgs = [c for c in cfgs if c.name == only["config"]] or cfgs
     hjobs = c09_halt.jobs_for(cfgs, ctx.seed)
     launched = None if only else c09_halt.launch(hjobs)     # runs alongside the parts below, collected at the end
+    xjobs = c09_exits.jobs_for(cfgs, ctx.seed, thorough=(ctx.tier == "thorough"))
+    xlaunched = None if only else c09_exits.launch(xjobs)   # exit-shape family: likewise
     jobs, res, atts = build_all(ctx, cfgs)
     ctx.log(f"compiled at {_t.time() - ctx.t0:.0f}s")
     exit_fail = part_exits(ctx, jobs, res)
@@ -241,6 +277,8 @@ def run(ctx):
         ctx.log(f"getter family at {_t.time() - ctx.t0:.0f}s")
         found = c09_halt.part_halt(ctx, hjobs, found, launched) or found
         ctx.log(f"terminator family at {_t.time() - ctx.t0:.0f}s")
+        found = c09_exits.part_exits(ctx, xjobs, found, xlaunched) or found
+        ctx.log(f"exit-shape family at {_t.time() - ctx.t0:.0f}s")
     # verdicts for proof / placement breaks: Search = the correspondence above
     if pending is not None and not found:
         ctx.violation(pending["kind"], pending["name"], pending["detail"])
